@@ -1,5 +1,6 @@
 import WM.Lemmas.IndexMp
 import WM.Lemmas.IndexBuffered
+import WM.Lemmas.IndexStorage
 /-!
 # C18 — writer front-ends are interchangeable
 
@@ -10,115 +11,40 @@ in the model (files are abstracted); they are compared end to end by the check.
 namespace WM.C18
 open WM.Dict WM.Index
 
-/-- `subOf` is what running the sub-writer gives (documents of the schema are never rejected). -/
-theorem subWriter_eq (sc : Schema) (ds : List DocRec) (h : ∀ d ∈ ds, d.fits sc = true) :
-    ∃ w, subWriter sc ds = .ok w ∧ w.schema = sc ∧ w.ndocs = (subOf sc ds).ndocs ∧ w.pool = (subOf sc ds).pool :=
-  let ⟨w, h1, h2, h3, h4, _⟩ := subWriter_ok sc ds h
-  ⟨w, h1, h2, h3, h4⟩
+/-- **The sub-writers.** Running a sub-writer (`subWriter`: `add_document` one by one on an empty
+segment writer) on documents of the schema never raises; its per-document data are the documents in
+arrival order and its posting pool their postings.  Hence for every assignment the list of
+sub-writer results `SubsOf sc assign subs` exists. -/
+theorem subWriter_eq (sc : Schema) :
+    (∀ ds : List DocRec, (∀ d ∈ ds, d.fits sc = true) →
+      ∃ w, subWriter sc ds = .ok w ∧ w.schema = sc ∧ w.ndocs = ds ∧ w.pool = allPostings ds ∧ w.segs = []) ∧
+    (∀ assign : List (List DocRec), (∀ ds ∈ assign, ∀ d ∈ ds, d.fits sc = true) → ∃ subs, SubsOf sc assign subs) :=
+  ⟨fun ds h => subWriter_ok sc ds h, fun assign h => SubsOf.exist sc assign h⟩
 
 /-- **mp (merged).** For *every* assignment of the added documents to sub-writers (`assign`, one
 list per sub-writer in arrival order — i.e. every outcome of the scheduling and batching, empty
-sub-writers included) the commit succeeds, writes a well-formed TOC and the index holds the old
-content plus exactly the added documents. -/
+sub-writers included) and the writers `subs` the sub-processes produce for it (`SubsOf`: the `i`-th
+is the result of running `subWriter` on the `i`-th list), the commit succeeds, writes a well-formed
+TOC and the index holds the old content plus exactly the added documents. -/
 theorem mp (w : Writer) (hwf : w.WF) (hfits : ∀ d ∈ w.ndocs, d.fits w.schema = true)
     (hna : w.added = false → w.ndocs = []) (plan : Plan) (hplan : PlanOK plan)
-    (assign : List (List DocRec)) (hfit : ∀ ds ∈ assign, ∀ d ∈ ds, d.fits w.schema = true) :
-    ∃ t', w.mpCommit (assign.map (subOf w.schema)) plan = .ok t' ∧ t'.WF ∧ t'.schema = w.schema ∧
+    (assign : List (List DocRec)) (hfit : ∀ ds ∈ assign, ∀ d ∈ ds, d.fits w.schema = true)
+    (subs : List Writer) (hsubs : SubsOf w.schema assign subs) :
+    ∃ t', w.mpCommit subs plan = .ok t' ∧ t'.WF ∧ t'.schema = w.schema ∧
       t'.content.Perm (contentOf w.schema w.segs ++ w.ndocs ++ assign.flatten) := by
-  obtain ⟨w1, h1, wf1⟩ := Writer.addReaders_ok w (plan w.segs).1 hwf
-    (fun s hs => hwf.segs s (hplan.sub _ s (Or.inl hs)))
-  obtain ⟨b1, b2, b3, b4, b5⟩ := Writer.addReaders_fields w _ w1 h1
-  have hna1 : w1.added = false → w1.ndocs = [] := by
-    intro h
-    rw [b4] at h
-    simp only [Bool.or_eq_false_iff, Bool.not_eq_false', List.isEmpty_iff] at h
-    rw [b5, hna h.1, h.2]; simp [contentOf]
-  have hsub : ∀ s ∈ assign.map (subOf w.schema), s.pool = allPostings s.ndocs := by
-    intro s hs
-    simp only [List.mem_map] at hs
-    obtain ⟨ds, _, rfl⟩ := hs
-    rfl
-  obtain ⟨fwf, fdocs, fdel⟩ := Writer.mpFinal_spec w1 (assign.map (subOf w.schema)) wf1 hna1 hsub
-  refine ⟨_, by unfold Writer.mpCommit; simp only [h1, Except.map]; rfl, ?_, b1, ?_⟩
-  · intro s hs
-    simp only [List.mem_append, List.mem_singleton] at hs
-    rcases hs with hs | rfl
-    · exact hwf.segs s (hplan.sub _ s (Or.inr hs))
-    · exact fwf
-  · simp only [Toc.content, contentOf_append, b1]
-    have hfin : contentOf w.schema [w1.mpFinal (assign.map (subOf w.schema))]
-        = w.ndocs ++ contentOf w.schema (plan w.segs).1 ++ assign.flatten := by
-      rw [contentOf_singleton, Seg.liveDocs_of_no_deletions _ fdel, fdocs, flatten_subOf, b5, List.map_append,
-        List.map_append]
-      rw [map_restrict_of_fits _ _ hfits, map_restrict_of_fits _ assign.flatten (by
-        intro d hd; obtain ⟨ds, hds, hd'⟩ := List.mem_flatten.mp hd; exact hfit ds hds d hd'),
-        contentOf_restrict]
-    rw [hfin]
-    have h2 := contentOf_perm w.schema (hplan w.segs)
-    rw [contentOf_append] at h2
-    -- u ++ (n ++ m ++ a)  ~  (m ++ u) ++ n ++ a
-    refine List.Perm.trans ?_ ((h2.append_right w.ndocs).append_right assign.flatten)
-    simp only [List.append_assoc]
-    exact (List.Perm.append_left _ (List.perm_append_comm_assoc _ _ _)).trans (List.perm_append_comm_assoc _ _ _)
+  rw [Writer.mpCommit_congr w subs _ (SubsOf.view w.schema assign subs hsubs hfit) plan]
+  exact mpCommit_closed w hwf hfits hna plan hplan assign hfit
 
 /-- **mp (multi-segment).** Adopting the sub-writers' segments instead of merging them gives the
-same content, for every assignment. -/
+same content, for every assignment and the sub-writers produced for it. -/
 theorem mp_multisegment (w : Writer) (hwf : w.WF) (hfits : ∀ d ∈ w.ndocs, d.fits w.schema = true)
     (hna : w.added = false → w.ndocs = []) (plan : Plan) (hplan : PlanOK plan)
-    (assign : List (List DocRec)) (hfit : ∀ ds ∈ assign, ∀ d ∈ ds, d.fits w.schema = true) :
-    ∃ t', w.mpCommitMulti (assign.map (subOf w.schema)) plan = .ok t' ∧ t'.WF ∧ t'.schema = w.schema ∧
+    (assign : List (List DocRec)) (hfit : ∀ ds ∈ assign, ∀ d ∈ ds, d.fits w.schema = true)
+    (subs : List Writer) (hsubs : SubsOf w.schema assign subs) :
+    ∃ t', w.mpCommitMulti subs plan = .ok t' ∧ t'.WF ∧ t'.schema = w.schema ∧
       t'.content.Perm (contentOf w.schema w.segs ++ w.ndocs ++ assign.flatten) := by
-  obtain ⟨w1, h1, wf1⟩ := Writer.addReaders_ok w (plan w.segs).1 hwf
-    (fun s hs => hwf.segs s (hplan.sub _ s (Or.inl hs)))
-  obtain ⟨b1, b2, b3, b4, b5⟩ := Writer.addReaders_fields w _ w1 h1
-  have hsubwf : ∀ ds, (subOf w.schema ds).finalizeSegment.WF := by
-    intro ds
-    exact Writer.finalizeSegment_wf _ ⟨by intro s hs; simp [subOf] at hs, List.Perm.refl _⟩
-  have hsubc : contentOf w.schema ((assign.map (subOf w.schema)).map Writer.finalizeSegment) = assign.flatten := by
-    simp only [contentOf, List.map_map, List.flatMap_map]
-    induction assign with
-    | nil => rfl
-    | cons ds r ih =>
-      simp only [List.flatMap_cons, List.flatten_cons, Function.comp_def]
-      rw [Seg.liveDocs_of_no_deletions _ rfl]
-      simp only [Function.comp_def] at ih
-      rw [ih (fun x hx => hfit x (by simp [hx]))]
-      congr 1
-      exact map_restrict_of_fits _ _ (hfit ds (by simp))
-  have hown : contentOf w.schema (if w1.added then [w1.finalizeSegment] else [])
-      = w.ndocs ++ contentOf w.schema (plan w.segs).1 := by
-    by_cases ha : w1.added = true
-    · simp only [ha, if_true]
-      rw [contentOf_singleton, Seg.liveDocs_of_no_deletions _ rfl]
-      simp only [Writer.finalizeSegment, b5, List.map_append]
-      rw [map_restrict_of_fits _ _ hfits, contentOf_restrict]
-    · have ha' : w1.added = false := by simpa using ha
-      have h := ha'
-      rw [b4] at h
-      simp only [Bool.or_eq_false_iff, Bool.not_eq_false', List.isEmpty_iff] at h
-      simp [ha', hna h.1, h.2, contentOf]
-  refine ⟨_, by unfold Writer.mpCommitMulti; simp only [h1, Except.map]; rfl, ?_, b1, ?_⟩
-  · intro s hs
-    simp only [List.mem_append, List.mem_map] at hs
-    rcases hs with (hs | ⟨x, hx, rfl⟩) | hs
-    · exact hwf.segs s (hplan.sub _ s (Or.inr hs))
-    · obtain ⟨ds, _, rfl⟩ := hx
-      exact hsubwf ds
-    · split at hs
-      · simp only [List.mem_singleton] at hs; subst hs; exact Writer.finalizeSegment_wf w1 wf1
-      · simp at hs
-  · simp only [Toc.content, contentOf_append, b1, hsubc, hown]
-    have h2 := contentOf_perm w.schema (hplan w.segs)
-    rw [contentOf_append] at h2
-    -- u ++ a ++ (n ++ m)  ~  (m ++ u) ++ n ++ a
-    refine List.Perm.trans ?_ ((h2.append_right w.ndocs).append_right assign.flatten)
-    simp only [List.append_assoc]
-    have h3 : (assign.flatten ++ (w.ndocs ++ contentOf w.schema (plan w.segs).1)).Perm
-        (contentOf w.schema (plan w.segs).1 ++ (w.ndocs ++ assign.flatten)) := by
-      refine List.perm_append_comm.trans ?_
-      simp only [List.append_assoc]
-      exact List.perm_append_comm_assoc _ _ _
-    exact (List.Perm.append_left _ h3).trans (List.perm_append_comm_assoc _ _ _)
+  rw [Writer.mpCommitMulti_congr w subs _ (SubsOf.view w.schema assign subs hsubs hfit) plan]
+  exact mpCommitMulti_closed w hwf hfits hna plan hplan assign hfit
 
 /-- Hence the assignment is invisible: two schedules that hand out the same documents (in any
     grouping, any order) give the same content, merged or multi-segment, and the same as the
@@ -126,11 +52,11 @@ theorem mp_multisegment (w : Writer) (hwf : w.WF) (hfits : ∀ d ∈ w.ndocs, d.
 theorem mp_assignment_invisible (w : Writer) (hwf : w.WF) (hfits : ∀ d ∈ w.ndocs, d.fits w.schema = true)
     (hna : w.added = false → w.ndocs = []) (plan1 plan2 : Plan) (h1 : PlanOK plan1) (h2 : PlanOK plan2)
     (a1 a2 : List (List DocRec)) (hf1 : ∀ ds ∈ a1, ∀ d ∈ ds, d.fits w.schema = true)
-    (hf2 : ∀ ds ∈ a2, ∀ d ∈ ds, d.fits w.schema = true) (hperm : a1.flatten.Perm a2.flatten) :
-    ∃ t1 t2, w.mpCommit (a1.map (subOf w.schema)) plan1 = .ok t1 ∧
-      w.mpCommitMulti (a2.map (subOf w.schema)) plan2 = .ok t2 ∧ t1.content.Perm t2.content := by
-  obtain ⟨t1, e1, _, _, c1⟩ := mp w hwf hfits hna plan1 h1 a1 hf1
-  obtain ⟨t2, e2, _, _, c2⟩ := mp_multisegment w hwf hfits hna plan2 h2 a2 hf2
+    (hf2 : ∀ ds ∈ a2, ∀ d ∈ ds, d.fits w.schema = true) (hperm : a1.flatten.Perm a2.flatten)
+    (s1 s2 : List Writer) (hs1 : SubsOf w.schema a1 s1) (hs2 : SubsOf w.schema a2 s2) :
+    ∃ t1 t2, w.mpCommit s1 plan1 = .ok t1 ∧ w.mpCommitMulti s2 plan2 = .ok t2 ∧ t1.content.Perm t2.content := by
+  obtain ⟨t1, e1, _, _, c1⟩ := mp w hwf hfits hna plan1 h1 a1 hf1 s1 hs1
+  obtain ⟨t2, e2, _, _, c2⟩ := mp_multisegment w hwf hfits hna plan2 h2 a2 hf2 s2 hs2
   exact ⟨t1, t2, e1, e2, c1.trans ((List.Perm.append_left _ hperm).trans c2.symm)⟩
 
 /-- **async.** Replaying the recorded calls on the writer obtained later is, by construction, the
@@ -152,41 +78,39 @@ theorem buffered_adds_partial (b : Buffered) (hi : BInv b) (docs : List DocRec)
       ∃ t, b'.close = .ok t ∧ t.WF ∧ t.content.Perm (b.content ++ docs) := by
   refine ⟨?_, Buffered.adds_close docs b hi hf⟩
   intro d hd
-  obtain ⟨b1, h1, hi1, _, _, hc1⟩ := Buffered.addDocument_spec b hi d hd
+  obtain ⟨b1, h1, hi1, _, _, _, hc1⟩ := Buffered.addDocument_spec b hi d hd
   exact ⟨b1, h1, hi1, hc1⟩
 
-/-! ### BufferedWriter: the full statement (not proved yet, see the module's PARTIAL entry) -/
+/-- **buffered.** Start from a buffered writer that agrees with a dictionary state (`BRel`: the
+invariant `BInv`, same schema, its own reader shows the dictionary's documents) and make any
+sequence of `add_document` / `update_document` / `delete_by_term` / `delete_by_query` calls on it
+(`Buffered.step`; failing calls included; flushes through `add_reader` + `commit` + a new writer
+wherever the limit says).  After every call the writer's own reader holds exactly the dictionary
+after the same calls (`flatStep`: every call sees committed *and* buffered documents, so buffered
+documents can be deleted and replaced), and `close()` commits a well-formed index holding the same.
+Side conditions (`BRunOK`): `update_document` is unambiguous, a document has at most one posting
+per term (for the count of `delete_by_term`); deletion by number is left to the check. -/
+theorem buffered (b : Buffered) (sp : State) (h : BRel b sp) (ops : List Op) (hok : BRunOK sp ops) :
+    BRel (ops.foldl Buffered.step b) (ops.foldl flatStep sp) ∧
+    ∃ t, (ops.foldl Buffered.step b).close = .ok t ∧ t.WF ∧ t.content.Perm (ops.foldl flatStep sp).docs :=
+  buffered_run ops b sp h hok
 
-/-- what a call on a `BufferedWriter` means on the dictionary: every call sees committed + buffered -/
-def flatStep (sp : State) : Op → State
-  | .add d => if d.fits sp.schema then { sp with docs := sp.docs ++ [d] } else sp
-  | .update d =>
-    if d.fits sp.schema then
-      { sp with docs := sp.docs.filter (fun c => !sharesUnique (uniqTerms sp.schema d) c) ++ [d] }
-    else { sp with docs := sp.docs.filter (fun c => !sharesUnique (uniqTerms sp.schema d) c) }
-  | .delBy (.pred p) => { sp with docs := sp.docs.filter (fun c => !p c) }
-  | .delBy (.term f t) => { sp with docs := sp.docs.filter (fun c => !c.hasTerm f t) }
-  | _ => sp
+/-- the same, one call at a time (so "at every point of any interleaving") -/
+theorem buffered_step_sim (b : Buffered) (sp : State) (h : BRel b sp) (op : Op) (hok : BOpOK sp op) :
+    BRel (b.step op) (flatStep sp op) := buffered_step b sp h op hok
 
-def Buffered.step (b : Buffered) : Op → Except Err Buffered
-  | .add d => b.addDocument d
-  | .update d => match b.updateDocument d with
-    | (b', none) => .ok b'
-    | (_, some e) => .error e
-  | .delBy q => (b.deleteByQuery q).map (·.1)
-  | .delDoc n => b.deleteDocument n
-  | _ => .ok b
+/-- **storage.** The index is parametric in its storage: over any back-end satisfying the map laws
+(`Store.Lawful`: reading a name returns what was last written under it, writing one name does not
+disturb another) what `commit` writes (segments under fresh names, then the TOC) is what the next
+`open` reads — schema, generation and segments, hence content, counts, postings and every later
+writer session.  `RamStorage` (a dictionary) and a directory (names to files) are instances. -/
+theorem storage {σ : Type} (st : Store σ) (hl : st.Lawful) (s : σ) (tocName : Nat) (names : List Nat) (t : Toc)
+    (hn : names.Nodup) (hlen : names.length = t.segs.length) (htoc : tocName ∉ names) :
+    loadToc st (saveToc st s tocName names t) tocName = some t ∧
+    (loadToc st (saveToc st s tocName names t) tocName).map Toc.content = some t.content :=
+  ⟨storage_roundtrip st hl s tocName names t hn hlen htoc, by rw [storage_roundtrip st hl s tocName names t hn hlen htoc]; rfl⟩
 
-/-- `buffered`: at every point of any sequence of add/update/delete-by-query calls (flushes
-    happening wherever the limit says) the buffered writer's own reader holds committed + buffered
-    = the dictionary, and after `close()` the committed index holds the same. -/
-def buffered_full : Prop :=
-  ∀ (b : Buffered) (sp : State) (ops : List Op),
-    b.writer.WF → b.ram.WF → PlanOK b.plan → b.writer.ndocs = [] → b.writer.added = false →
-    (b.count = 0 → b.ram.docs = []) → sp.schema = b.writer.schema → b.content.Perm sp.docs →
-    (∀ op ∈ ops, match op with | .add _ | .delBy (.pred _) => True | _ => False) →
-    ∃ b', ops.foldlM Buffered.step b = .ok b' ∧ b'.content.Perm (ops.foldl flatStep sp).docs ∧
-      ∃ t, b'.close = .ok t ∧ t.content.Perm (ops.foldl flatStep sp).docs
+theorem storage_instances : ramStore.Lawful ∧ dirStore.Lawful := ⟨ramStore_lawful, dirStore_lawful⟩
 
 /-! ### non-vacuity -/
 
@@ -204,17 +128,26 @@ theorem w_wf : w.WF :=
 end Ex
 
 /-- the hypotheses of `mp` hold for a writer over a segment with a deletion and three documents
-    dealt to three sub-writers, one of which gets nothing; the merged segment numbers them 1, 2, 3
-    after the copied live document -/
+    dealt to three sub-writers, one of which gets nothing: the sub-writers run (`SubsOf`), and the
+    merged segment numbers the documents 1, 2, 3 after the copied live document -/
 example : Ex.w.WF ∧ (∀ ds ∈ [[Ex.doc 5 7], [], [Ex.doc 6 7, Ex.doc 7 9]], ∀ d ∈ ds, d.fits Ex.w.schema = true) ∧
-    ((Ex.w.mpCommit ([[Ex.doc 5 7], [], [Ex.doc 6 7, Ex.doc 7 9]].map (subOf Ex.sc)) planOptimize).toOption.map
-        (fun t => t.segs.map (fun s => s.docs.map (·.key)))) = some [[0, 5, 6, 7]] :=
-  ⟨Ex.w_wf, by decide, by decide⟩
+    (∃ subs, SubsOf Ex.w.schema [[Ex.doc 5 7], [], [Ex.doc 6 7, Ex.doc 7 9]] subs ∧
+      ((Ex.w.mpCommit subs planOptimize).toOption.map (fun t => t.segs.map (fun s => s.docs.map (·.key)))) = some [[0, 5, 6, 7]]) :=
+  ⟨Ex.w_wf, by decide,
+   [[Ex.doc 5 7], [], [Ex.doc 6 7, Ex.doc 7 9]].map (subOf Ex.sc),
+   .cons rfl (.cons rfl (.cons rfl .nil)), by decide⟩
 
-/-- `BInv` is inhabited: a buffered writer opened on the index of `Ex.w`, limit 2, one document
-    already buffered -/
-example : BInv { writer := Ex.w, ram := { docs := [Ex.doc 9 5], posts := [⟨0, 5, 0, 1, 0⟩, ⟨0, 6, 0, 2, 0⟩], deleted := [] },
-                 count := 1, limit := 2, plan := planMergeSmall } :=
-  ⟨Ex.w_wf, ⟨by decide, by decide, by decide, by decide⟩, rfl, by decide, rfl, rfl, by decide, planMergeSmall_ok⟩
+/-- `BRel` / `BRunOK` are inhabited: a buffered writer opened on the index of `Ex.w` (one live, one
+    deleted document), limit 2, one document already buffered; then add, delete by term, add -/
+example : BRel { writer := Ex.w, ram := { docs := [Ex.doc 9 5], posts := [⟨0, 5, 0, 1, 0⟩, ⟨0, 6, 0, 2, 0⟩], deleted := [] },
+                 count := 1, limit := 2, plan := planMergeSmall }
+               { schema := Ex.sc, docs := [Ex.doc 0 3, Ex.doc 9 5] } ∧
+    BRunOK { schema := Ex.sc, docs := [Ex.doc 0 3, Ex.doc 9 5] } [.add (Ex.doc 4 3), .delBy (.term 0 4), .add (Ex.doc 5 8)] :=
+  ⟨⟨⟨Ex.w_wf, ⟨by decide, by decide, by decide, by decide⟩, by decide, rfl, rfl, by decide, planMergeSmall_ok⟩, rfl, by decide⟩,
+   ⟨trivial, (by show ∀ c ∈ _, termCount _ 0 4 c ≤ 1; decide), trivial, trivial⟩⟩
+
+/-- `storage` on the dictionary back-end: a TOC with the two-document segment survives the round trip -/
+example : (loadToc ramStore (saveToc ramStore [] 0 [7] { schema := Ex.sc, segs := [Ex.seg], gen := 3 }) 0).map
+    (fun t => (t.schema, t.gen, t.segs)) = some (Ex.sc, 3, [Ex.seg]) := by decide
 
 end WM.C18
